@@ -224,6 +224,7 @@ impl<S: Storage> Builder<S> {
                 let columns = (self.node(list).as_list().iter())
                     .map(|id| self.node(*id).as_column())
                     .collect_vec();
+                let filter_id = filter;
                 // analyze range filter
                 let filter = {
                     use std::ops::Bound;
@@ -272,13 +273,25 @@ impl<S: Storage> Builder<S> {
                     }
                     .execute()
                 } else {
-                    TableScanExecutor {
+                    let scan = TableScanExecutor {
                         table_id,
                         columns,
                         filter,
                         storage: self.storage.clone(),
                     }
-                    .execute()
+                    .execute();
+                    // The key range is only a hint that lets the storage layer skip blocks. The condition
+                    // itself must still hold for every returned row: the optimizer may have simplified it
+                    // to a form that is not a range any more (e.g. `k > 1 and k < 1` becomes `false`, for
+                    // which no range is derived and the scan would return the whole table).
+                    if self.node(filter_id) != &Expr::true_() {
+                        FilterExecutor {
+                            condition: self.resolve_column_index(filter_id, id),
+                        }
+                        .execute(scan)
+                    } else {
+                        scan
+                    }
                 }
             }
 
